@@ -291,28 +291,19 @@ impl InlineTable {
 
     /// Gets the given key's corresponding entry in the Table for in-place manipulation.
     pub fn entry(&'_ mut self, key: impl Into<InternalString>) -> InlineEntry<'_> {
-        match self.items.entry(key.into().into()) {
-            indexmap::map::Entry::Occupied(mut entry) => {
-                // Ensure it is a `Value` to simplify `InlineOccupiedEntry`'s code.
-                let scratch = std::mem::take(entry.get_mut());
-                let scratch = Item::Value(
-                    scratch
-                        .into_value()
-                        // HACK: `Item::None` is a corner case of a corner case, let's just pick a
-                        // "safe" value
-                        .unwrap_or_else(|_| Value::InlineTable(Default::default())),
-                );
-                *entry.get_mut() = scratch;
-
-                InlineEntry::Occupied(InlineOccupiedEntry { entry })
-            }
-            indexmap::map::Entry::Vacant(entry) => InlineEntry::Vacant(InlineVacantEntry { entry }),
-        }
+        let key: Key = key.into().into();
+        self.entry_format(&key)
     }
 
     /// Gets the given key's corresponding entry in the Table for in-place manipulation.
     pub fn entry_format<'a>(&'a mut self, key: &Key) -> InlineEntry<'a> {
         // Accept a `&Key` to be consistent with `entry`
+
+        // A placeholder left by mutable indexing (`Item::None`) is not an entry: drop it so the
+        // key is reported as vacant instead of turning the placeholder into content
+        if matches!(self.items.get(key), Some(Item::None)) {
+            self.items.shift_remove(key);
+        }
         match self.items.entry(key.clone()) {
             indexmap::map::Entry::Occupied(mut entry) => {
                 // Ensure it is a `Value` to simplify `InlineOccupiedEntry`'s code.
@@ -320,9 +311,7 @@ impl InlineTable {
                 let scratch = Item::Value(
                     scratch
                         .into_value()
-                        // HACK: `Item::None` is a corner case of a corner case, let's just pick a
-                        // "safe" value
-                        .unwrap_or_else(|_| Value::InlineTable(Default::default())),
+                        .expect("placeholders were removed, tables are not stored"),
                 );
                 *entry.get_mut() = scratch;
 
@@ -383,11 +372,12 @@ impl InlineTable {
         value: V,
     ) -> &mut Value {
         let key = key.into();
-        self.items
-            .entry(Key::new(key))
-            .or_insert(Item::Value(value.into()))
-            .as_value_mut()
-            .expect("non-value type in inline table")
+        let item = self.items.entry(Key::new(key)).or_insert(Item::None);
+        // A placeholder left by mutable indexing is not a value yet
+        if item.is_none() {
+            *item = Item::Value(value.into());
+        }
+        item.as_value_mut().expect("non-value type in inline table")
     }
 
     /// Inserts a key-value pair into the map.
